@@ -1,4 +1,5 @@
 import Ndt.Num
+import Ndt.Model.Diff
 /-!
 Model of the real-step `HessianDifferenceFunctions` (finite_difference.py:229-333): the double loop fills the
 upper triangle `i ≤ j` and mirrors it (`hess[j, i] = hess[i, j]`).  Vectors are functions `Nat → K`.
@@ -25,6 +26,14 @@ def hessCentral2Cell (f : (Nat → K) → K) (fx : K) (x h : Nat → K) (i j : N
   (f (shift2 x i (h i) j (h j)) + f (shift2 x i (-(h i)) j (-(h j)))
     - f (shift2 x i (h i) j 0) - f (shift2 x j (h j) i 0) + fx
     - f (shift2 x i (-(h i)) j 0) - f (shift2 x j (-(h j)) i 0) + fx) / (2 * (h j * h i))
+
+/-- `_complex_even` (Ridout eq. 10): `(f(x + 1j h_i e_i + h_j e_j) - f(x + 1j h_i e_i - h_j e_j)).imag / (2 h_j h_i)` on a complex
+carrier `C` (ℂ in the theorem, Gaussian rationals in the driver) -/
+def hessComplexCell {C : Type} [Add C] [Sub C] [Mul C] [OfNat C 0] (s : CStep K C) (f : (Nat → C) → C) (x h : Nat → K)
+    (i j : Nat) : K :=
+  let xc : Nat → C := fun k => s.ofReal (x k)
+  s.im (f (shift2 xc i (s.i * s.ofReal (h i)) j (s.ofReal (h j)))
+        - f (shift2 xc i (s.i * s.ofReal (h i)) j (s.ofReal (-(h j))))) / (2 * (h j * h i))
 
 /-- the mirrored fill: entry `(i, j)` of the matrix is the cell computed for `(min i j, max i j)` -/
 def hessEntry (cell : Nat → Nat → K) (i j : Nat) : K := cell (min i j) (max i j)
